@@ -116,6 +116,8 @@ func prodFuncs(c *Ctx, rels ...string) []*ssa.Function {
 func checkC11(c *Ctx, r *Report, tier string) {
 	round5(c, r, "C11")
 	round6(c, r, "C11")
+	round7(c, r, "C11")
+	round8(c, r, "C11")
 	r.Rule("C11.R1", "no dropped error: no function returns a nil error from the non-nil side of an error test without handing the error on", 1)
 	r.Rule("C11.R2", "a non-blocking notification cannot be lost: where Notify is called with blocking=false on a notificator, every Create(n) on the same owner has a constant n >= 1", 1)
 	r.Rule("C11.R3", "id pairing: the NotificationId placed in a proposal is the id returned by the Create of the same activation, Remove(id) is deferred, the apply side notifies the id parsed from that field, and the value it notifies is the error of the index operation of that path (never a constant on a path that has one); ids are fresh random uuids; a channel looked up in the notificator is only used under its mutex", 10)
@@ -337,7 +339,8 @@ func c11R3(c *Ctx, r *Report) {
 					return
 				}
 				g := cl.Call.StaticCallee()
-				if g == nil || fnPkgPath(g) != modPath+"/index" || g.Signature.Recv() == nil || typeName(g.Signature.Recv().Type()) != "Hnsw" {
+				// (the index itself, or the validator of the metadata the index is about to store)
+				if g == nil || fnPkgPath(g) != modPath+"/index" || g.Signature.Recv() == nil || (typeName(g.Signature.Recv().Type()) != "Hnsw" && typeName(g.Signature.Recv().Type()) != "Metadata") {
 					return
 				}
 				res := g.Signature.Results()
@@ -1298,6 +1301,7 @@ func sendCounts(f *ssa.Function, match func(*ssa.Send) bool) (int, int) {
 func checkC09(c *Ctx, r *Report, tier string) {
 	round5(c, r, "C09")
 	round6(c, r, "C09")
+	round7(c, r, "C09")
 	_ = tier
 	r.Rule("C09.R5", "each node is asked once: the worker opens the node's result stream at one site, outside any loop", 1)
 	streamOpenedOnce(c, r, "C09.R5")
